@@ -38,7 +38,7 @@ place_demo() {
     esac
   fi
 }
-run_demo() { (cd $WT && eval "$(echo "$cmd" | sed "s#$ROOT/$ID#$WT#g")") >> $LOG 2>&1; }
+run_demo() { (cd $WT && eval "$(echo "$cmd" | sed "s#$ROOT/$ID#$WT#g; s#<worktree>#$WT#g")") >> $LOG 2>&1; }
 # --- without the mutant
 place_demo
 echo "== demo on unchanged tree" >> $LOG
